@@ -3,10 +3,13 @@
 Real code: furax.landscapes.StokesLandscape (through a trivial CAR subclass, as the repository's own
 tests do), HealpixLandscape, FrequencyLandscape: constructors, pixel2index, world2index, get_coverage.
 Model: coq/theories/Model/Landscape.v.  Oracle (independent of the model): closed formula with
-Python's round() on Fractions (round-half-even), set equality for the bijection, np.bincount.
+Python's round() on Fractions (round-half-even), set equality for the bijection, np.add.at over the
+NumPy-broadcast Sampling fields (theta, phi, pa of different but broadcastable shapes), healpy.ang2pix.
 
 Cases that need jax_enable_x64 (maps with more than 2^31-1 pixels) run in a worker subprocess
-(`python c17.py --worker`, JAX_ENABLE_X64=1); so does the numerical healpy cross-check (extra()).
+(`python c17.py --worker`, JAX_ENABLE_X64=1).  The numerical healpy cross-check (extra()) runs in BOTH
+x64 modes (driver + worker, in parallel), for every landscape dtype, float64 and float32 angles, nside
+1..8192 (and 16384, 2^20 with x64); its failures are VIOLATIONs with the direction as replay.
 """
 from __future__ import annotations
 
@@ -179,7 +182,7 @@ def impl_coverage(case, landscape):
 
 
 # ----------------------------------------------------------------------------------------------
-# healpy cross-check (numerical testing of the unproved clause; runs with x64 enabled)
+# healpy cross-check (numerical testing of the unproved clause; both x64 modes, every landscape dtype)
 
 
 def healpy_directions(nside, nrandom, rng, every_class=True):
@@ -366,18 +369,21 @@ def healpy_judge(nside, ev, i):
     pix, idx = ev['pixel'], ev['index']
     if ev['npixels'] != 1:
         return f'world2pixel returned {ev["npixels"]} coordinates for a 1-d map'
+    if pix.shape != ev['healpy'].shape or idx.shape != ev['healpy'].shape:
+        return f'world2pixel/world2index shapes {pix.shape}/{idx.shape} for directions of shape {ev["healpy"].shape}'
+    got, exp, p = int(idx[i]), int(ev['healpy'][i]), pix[i]
+    if got != exp and not explained_by_rounding(nside, float(ev['theta'][i]), float(ev['phi'][i]), got, ev['single']):
+        tol = float(angle_tolerance(np.float64(ev['theta'][i]), ev['single']))
+        return (
+            f'world2index={got} but healpy.ang2pix={exp} (nside={nside}, {pix.dtype} pixel number {p!r} from world2pixel; '
+            f'pixel {got} is not within {tol:.1e} rad of the direction)'
+        )
+    if not np.isfinite(p) or float(p) != float(int(p)) or int(p) != got:
+        return f'world2pixel={p!r} is not the integer world2index={got}'
     if exact_capacity(pix.dtype) < npix - 1:
         return f'world2pixel returns {pix.dtype}, which cannot hold every pixel number below npix={npix} exactly'
     if idx.dtype.kind not in 'iu' or exact_capacity(idx.dtype) < npix - 1:
         return f'world2index returns {idx.dtype}, not an integer type wide enough for npix={npix}'
-    if pix.shape != ev['healpy'].shape or idx.shape != ev['healpy'].shape:
-        return f'world2pixel/world2index shapes {pix.shape}/{idx.shape} for directions of shape {ev["healpy"].shape}'
-    got, exp, p = int(idx[i]), int(ev['healpy'][i]), pix[i]
-    if not np.isfinite(p) or float(p) != float(int(p)) or int(p) != got:
-        return f'world2pixel={p!r} is not the integer world2index={got}'
-    if got != exp and not explained_by_rounding(nside, float(ev['theta'][i]), float(ev['phi'][i]), got, ev['single']):
-        tol = float(angle_tolerance(np.float64(ev['theta'][i]), ev['single']))
-        return f'world2index={got} but healpy.ang2pix={exp} (nside={nside}; pixel {got} is not within {tol:.1e} rad of the direction)'
     return None
 
 
@@ -409,7 +415,7 @@ def healpy_check(configs, seed):
         todo = list(bad) if len(bad) else [0]
         nb, nfail, by_class = 0, 0, {}
         for i in todo:
-            if nfail >= 3:
+            if nfail >= 1:
                 rec['unexamined_mismatches'] = int(len(todo) - todo.index(i))
                 break
             msg = healpy_judge(nside, ev, int(i))
@@ -418,7 +424,7 @@ def healpy_check(configs, seed):
                 continue
             nfail += 1
             by_class[tag[i]] = by_class.get(tag[i], 0) + 1
-            if len(out['failures']) < 6:
+            if len(out['failures']) < 4:
                 out['failures'].append(
                     {
                         'case': healpy_case(nside, dtype, angle_dtype, ev['theta'][i], ev['phi'][i]),
@@ -627,6 +633,15 @@ class Check(PropertyCheck):
         'bits when x64 is off)',
         'HealpixLandscape.world2pixel = jax_healpy.ang2pix is NOT modelled: theorems take the pixel number it '
         'returns as given (healpix_index_is_pixel); coverage cases feed the model the indices world2index returned',
+        'healpy.ang2pix (ring) is the reference of the tested-only clause; a mismatch is tolerated only if the returned '
+        'pixel overlaps (healpy.query_disc, inclusive) the disc of radius 1e-9 rad (double precision angles) or '
+        '16 ulp32 * (1 + 1/sin theta) (single precision angle arithmetic: x64 off or float32 angles) around the direction; '
+        'with single precision angles only random directions, pixel centres and index-corner pixel centres are used. The '
+        'landscape dtype / x64 corners of HealpixLandscape.world2pixel (dtype able to hold every pixel number exactly, '
+        'integral values equal to world2index) are checked on the implementation only (the model takes the pixel number as given)',
+        'NumPy broadcasting (np.broadcast_shapes / broadcast_to) is the reference for Sampling fields of different '
+        'shapes in the oracle; the model has its own broadcast (Model/Landscape.v: bshape, broadcast_to) for flat maps; '
+        'for HEALPix maps the model receives the indices world2index returned and broadcasts them against pa',
         'correspondence harness harness/c17.py (case generators, the two printers of one case description, the '
         'x64 worker subprocess protocol)',
     ]
@@ -893,13 +908,17 @@ class Check(PropertyCheck):
             'arity (0, fewer, more coordinates; empty shape; zero dims); +-inf, nan, huge coordinates; 20 maps of '
             '~2^31 pixels (never allocated) in both x64 modes. ctor: shape/pixel_shape given both, neither, either; '
             'Healpix/Frequency landscapes. coverage: nside 1,2,4 x adversarial (every pixel once, all in one pixel, '
-            'empty, single, 2-d sampling) and random samplings, FrequencyLandscape, flat maps incl. out-of-map samples. '
+            'empty, single, 2-d sampling) and random samplings, FrequencyLandscape, flat maps incl. out-of-map samples; '
+            'broadcast: 34 (theta shape, phi shape) pairs (0-d, (n,), (1,), (d,1)x(1,n), (d,n)x(n,), 3-d, empty, '
+            'incompatible) x (d,n) in {(2,5) fewer samples than pixels, (3,50) more} x values spread / two pixels / one pixel x '
+            'pa 0-d / trailing axis / full / larger than the pointing, on flat maps (model broadcasts itself) and HEALPix / '
+            'Frequency maps nside 1,2(,4) (reference healpy.ang2pix). '
             'Distinct by canonical JSON of the case; evaluations counts cases, stats.points counts coordinates.'
         )
 
     def nontrivial(self, case, obs):
         if case['kind'] == 'coverage':
-            return len(case['theta']) > 1
+            return isinstance(obs, dict) and len(obs.get('indices', [])) > 1
         if case['kind'] == 'ctor':
             return True
         return isinstance(obs, dict) and ('error' in obs or (-1 in obs.get('idx', []) and any(i >= 0 for i in obs.get('idx', []))))
@@ -908,6 +927,8 @@ class Check(PropertyCheck):
         d = {}
         for c in cases:
             k = c['kind'] + ('/x64' if c.get('x64') else '') + ('/' + c['land'] if c['kind'] == 'coverage' else '')
+            if c['kind'] == 'coverage' and 'tshape' in c:
+                k += '/broadcast' + ('/pa-larger' if c.get('pa_larger') else '')
             d[k] = d.get(k, 0) + 1
         return d
 
